@@ -1,168 +1,259 @@
 //@@ property: C01
 //@@ crate: types
 //@@ mount: pocket-types/src/lib.rs
-// Event::from_json against the parts a text was rendered from.  Every skeleton in
-// texts.rs is checked at generation time (lib/gen_texts.py) to be valid JSON denoting
-// those parts for an independent parser (Python's json module); the harnesses then make
-// *value* bytes symbolic (hex digits, decimal digits, string bytes) and compute what the
-// patched text denotes.
+// Event::from_json against the parts a text was rendered from.  Every text in texts.rs is
+// checked at generation time (lib/gen_texts.py) to be valid JSON denoting those parts for an
+// independent parser (Python's json module).
+//
+// What is symbolic, and why so little: CBMC's symbolic executor only keeps *fully constant*
+// arrays as constants, so a single arbitrary byte in a 300-byte text turns every later read of
+// the text into a symbolic read and the parse does not finish (measured: one arbitrary digit in
+// the last member: > 8 min and > 4 GB, against 45 s for the constant text; raising
+// --max-field-sensitivity-array-size did not help).  Arbitrary *input bytes* are therefore
+// confined to the kernels (integer readers, string unescaper, hex reader - this file and C03),
+// and the member-level harnesses run on constant texts with an arbitrary prior output buffer.
+use crate::json::json_parse::{read_kind, read_u64};
 use crate::Event;
 include!("common.rs");
 include!("texts.rs");
 include!("jsonsym.rs");
 
-macro_rules! ev_layout {
-    ($name:ident, $T:ident, $ID:ident, $PK:ident, $SIG:ident, $KIND:ident, $kd:expr, $AT:ident, $ad:expr, $C:ident, $TV:ident, $end:expr) => {
+macro_rules! ev_text {
+    ($name:ident, $T:ident, $end:expr) => {
         #[kani::proof]
-        #[kani::unwind(32)]
+        #[kani::unwind(8)]
         #[kani::stub(core::panic::Location::caller, stub_caller)]
         fn $name() {
-            const N: usize = $T.len();
-            let mut t = [0u8; N + 2];
-            t[..N].copy_from_slice($T);
-            t[N] = kani::any(); // arbitrary bytes after the object
-            t[N + 1] = kani::any();
-            let e = patch_values(&mut t, $ID, $PK, $SIG, $KIND, $kd, $AT, $ad, $C, $TV);
+            let e = Expect { id: ID_BIN, pk: PK_BIN, sig: SIG_BIN, kind: 30023, at: 1681778790, content0: b'h', tagv0: b'a' };
             let mut out: [u8; 200] = kani::any();
-            let r = Event::from_json(&t, &mut out);
-            let fits = e.kind <= 65535 && e.at <= u64::MAX as u128;
-            match r {
+            match Event::from_json($T, &mut out) {
                 Ok((consumed, ev)) => {
-                    kani::cover!(e.kind == 65535);
-                    assert!(fits); // never wrapped
+                    kani::cover!(true);
                     assert!(consumed == $end);
                     check_event(ev, &e);
                 }
                 Err(err) => {
-                    kani::cover!(e.kind == 65536);
-                    assert!(!fits);
                     core::mem::forget(err);
+                    panic!("valid event text rejected");
                 }
             }
         }
     };
 }
 
-//@ harness: c01_values_compact
+//@ harness: c01_text_ws_unknown_small
 //@ tier: quick
-//@ timeout: 1800
-//@ mem: 14
-//@ unwindset: read_sig=66; read_id=34; read_pubkey=34; read_hex=66; memcmp.0=34
-//@ encodes: Event::from_json, parse_json_event, read_id, read_pubkey, read_sig, read_kind, read_u64, read_tags_array, read_content, json_unescape
-//@ bounds: compact text, order id,pubkey,created_at,kind,tags,content,sig; symbolic: first+last hex digit of id/pubkey/sig (either case), all 5 kind digits, all 10 created_at digits, first content byte, first byte of a tag value, 2 trailing bytes after the object, prior buffer contents. Accepted iff kind <= 65535; consumed = offset past the brace; every accessor equals the denoted part
-//@ outside: other string bytes / digits concrete; texts longer than ~600 bytes
-ev_layout!(c01_values_compact, L1, L1_ID, L1_PK, L1_SIG, L1_KIND, 5, L1_AT, 10, L1_CONTENT, L1_TAGV, L1.len());
+//@ timeout: 1200
+//@ mem: 12
+//@ unwindset: read_sig=66; read_id=34; read_pubkey=34; read_hex=66; memcmp.0=34; memchr=12; read_u64=24; read_kind=10; burn_string=30; eat_whitespace=6; burn_number=12; json_unescape=64; check_event=4
+//@ encodes: Event::from_json, parse_json_event (deferred content), burn_key_and_value_after_quote, burn_string, burn_value, burn_number, eat_whitespace
+//@ bounds: order kind,content,sig,tags,created_at,pubkey,id (content before tags: deferred content) with whitespace around colons and commas, an unknown string member first whose value ends in an escaped backslash ("q\"\\"), and an unknown negative-exponent number last; arbitrary prior contents of the output buffer. Accepted; consumed = length; every accessor equals the denoted part
+//@ outside: the text itself is constant (see the header of this file)
+ev_text!(c01_text_ws_unknown_small, L4, L4.len());
 
-//@ harness: c01_values_ws_unknown_deferred
-//@ tier: quick
-//@ timeout: 2400
-//@ mem: 16
-//@ unwindset: read_sig=66; read_id=34; read_pubkey=34; read_hex=66; memcmp.0=34
-//@ encodes: Event::from_json, parse_json_event (deferred content), burn_key_and_value, burn_value, burn_object, burn_array, burn_string, burn_number, eat_whitespace, next_object_field
-//@ bounds: 573-byte text, order kind,content,sig,tags,created_at,pubkey,id (content before tags: deferred), all four whitespace bytes in every gap incl. inside the tag arrays, three unknown members (first: string with escapes and brackets; middle: negative exponent number and nested arrays/objects with true/false/null; last: object whose keys look like event members); same symbolic value bytes as c01_values_compact
-//@ outside: whitespace/unknown-member *shapes* are one concrete layout per harness (a symbolic shape moves the read position: > 37 min in the probes)
-ev_layout!(c01_values_ws_unknown_deferred, L2, L2_ID, L2_PK, L2_SIG, L2_KIND, 5, L2_AT, 10, L2_CONTENT, L2_TAGV, L2_END);
-
-//@ harness: c01_values_ws_tags_last
+//@ harness: c01_text_ws_unknown_deferred
 //@ tier: thorough
-//@ timeout: 2400
-//@ mem: 16
-//@ unwindset: read_sig=66; read_id=34; read_pubkey=34; read_hex=66; memcmp.0=34
-//@ encodes: Event::from_json, parse_json_event
-//@ bounds: order pubkey,kind,id,content,created_at,sig,tags (tags last, content deferred to the very end), whitespace in every gap, no unknown members; same symbolic value bytes
-ev_layout!(c01_values_ws_tags_last, L3, L3_ID, L3_PK, L3_SIG, L3_KIND, 5, L3_AT, 10, L3_CONTENT, L3_TAGV, L3.len() - 1);
+//@ timeout: 3000
+//@ mem: 20
+//@ unwindset: read_sig=66; read_id=34; read_pubkey=34; read_hex=66; memcmp.0=34; memchr=12; read_u64=24; read_kind=10; burn_string=30; eat_whitespace=6; burn_number=12; json_unescape=64; check_event=4
+//@ encodes: Event::from_json, parse_json_event, read_id, read_pubkey, read_sig, read_kind, read_u64, read_tags_array, count_tags, read_tag, read_content, json_unescape, burn_key_and_value_after_quote, burn_value
+//@ bounds: 575-byte text, order kind,content,sig,tags,created_at,pubkey,id (content before tags: deferred content), all four whitespace bytes in every gap incl. inside the tag arrays, three unknown members (first: a string with escapes and brackets that ends in an escaped backslash; middle: negative exponent number, nested arrays/objects with true/false/null; last: an object whose keys look like event members), one trailing byte after the object; arbitrary prior contents of the 200-byte output buffer. Accepted; consumed = offset just past the closing brace; id, pubkey, sig (every byte), kind, created_at, content and the three tags equal the parts the text denotes
+//@ outside: the text itself is constant (see the header of this file); other member orders / whitespace placements / unknown-member shapes
+ev_text!(c01_text_ws_unknown_deferred, L2, L2_END);
 
-//@ harness: c01_order_m1 c01_order_m2 c01_order_m3 c01_order_m4 c01_order_m5 c01_order_m6 c01_order_m7
+//@ harness: c01_text_ws_tags_last
+//@ tier: quick
+//@ timeout: 900
+//@ mem: 12
+//@ unwindset: read_sig=66; read_id=34; read_pubkey=34; read_hex=66; memcmp.0=34; memchr=12; read_u64=24; read_kind=10; burn_string=30; eat_whitespace=6; burn_number=12; json_unescape=64; check_event=4
+//@ encodes: Event::from_json, parse_json_event, read_id, read_pubkey, read_sig, read_kind, read_u64, read_tags_array, count_tags, read_tag, read_content, json_unescape, burn_key_and_value_after_quote, burn_value
+//@ bounds: order pubkey,kind,id,content,created_at,sig,tags (tags last, content deferred to the very end) with whitespace in every gap; arbitrary prior contents of the 200-byte output buffer. Accepted; consumed = offset just past the closing brace; id, pubkey, sig (every byte), kind, created_at, content and the three tags equal the parts the text denotes
+//@ outside: the text itself is constant (see the header of this file); other member orders / whitespace placements / unknown-member shapes
+ev_text!(c01_text_ws_tags_last, L3, L3.len() - 1);
+
+//@ harness: c01_text_order_m1
+//@ tier: quick
+//@ timeout: 900
+//@ mem: 12
+//@ unwindset: read_sig=66; read_id=34; read_pubkey=34; read_hex=66; memcmp.0=34; memchr=12; read_u64=24; read_kind=10; burn_string=30; eat_whitespace=6; burn_number=12; json_unescape=64; check_event=4
+//@ encodes: Event::from_json, parse_json_event, read_id, read_pubkey, read_sig, read_kind, read_u64, read_tags_array, count_tags, read_tag, read_content, json_unescape, burn_key_and_value_after_quote, burn_value
+//@ bounds: compact text, member order id,pubkey,created_at,kind,tags,content,sig (each member is last in one of the seven orders; content before and after tags); arbitrary prior contents of the 200-byte output buffer. Accepted; consumed = offset just past the closing brace; id, pubkey, sig (every byte), kind, created_at, content and the three tags equal the parts the text denotes
+//@ outside: the text itself is constant (see the header of this file); other member orders / whitespace placements / unknown-member shapes
+ev_text!(c01_text_order_m1, M1, M1.len());
+
+//@ harness: c01_text_order_m2
 //@ tier: seeded
 //@ group: member_order
-//@ timeout: 1800
-//@ mem: 14
-//@ unwindset: read_sig=66; read_id=34; read_pubkey=34; read_hex=66; memcmp.0=34
-//@ encodes: Event::from_json, parse_json_event (member dispatch, 7-byte look-ahead, duplicate flags, deferred content)
-//@ bounds: seven compact member orders in which each member is last once and content precedes/follows tags (m1 ...,sig; m2 ...,id; m3 ...,content; m4 ...,created_at; m5 ...,kind; m6 ...,tags; m7 ...,pubkey); same symbolic value bytes as c01_values_compact
-//@ outside: the other 5033 member orders (the order-dependent parser state is only `tags seen before content` and `which member is last`; that these seven cover it is an argument by reading)
-ev_layout!(c01_order_m1, M1, M1_ID, M1_PK, M1_SIG, M1_KIND, 5, M1_AT, 10, M1_CONTENT, M1_TAGV, M1.len());
-ev_layout!(c01_order_m2, M2, M2_ID, M2_PK, M2_SIG, M2_KIND, 5, M2_AT, 10, M2_CONTENT, M2_TAGV, M2.len());
-ev_layout!(c01_order_m3, M3, M3_ID, M3_PK, M3_SIG, M3_KIND, 5, M3_AT, 10, M3_CONTENT, M3_TAGV, M3.len());
-ev_layout!(c01_order_m4, M4, M4_ID, M4_PK, M4_SIG, M4_KIND, 5, M4_AT, 10, M4_CONTENT, M4_TAGV, M4.len());
-ev_layout!(c01_order_m5, M5, M5_ID, M5_PK, M5_SIG, M5_KIND, 5, M5_AT, 10, M5_CONTENT, M5_TAGV, M5.len());
-ev_layout!(c01_order_m6, M6, M6_ID, M6_PK, M6_SIG, M6_KIND, 5, M6_AT, 10, M6_CONTENT, M6_TAGV, M6.len());
-ev_layout!(c01_order_m7, M7, M7_ID, M7_PK, M7_SIG, M7_KIND, 5, M7_AT, 10, M7_CONTENT, M7_TAGV, M7.len());
+//@ timeout: 900
+//@ mem: 12
+//@ unwindset: read_sig=66; read_id=34; read_pubkey=34; read_hex=66; memcmp.0=34; memchr=12; read_u64=24; read_kind=10; burn_string=30; eat_whitespace=6; burn_number=12; json_unescape=64; check_event=4
+//@ encodes: Event::from_json, parse_json_event, read_id, read_pubkey, read_sig, read_kind, read_u64, read_tags_array, count_tags, read_tag, read_content, json_unescape, burn_key_and_value_after_quote, burn_value
+//@ bounds: compact text, member order kind,content,sig,tags,created_at,pubkey,id (each member is last in one of the seven orders; content before and after tags); arbitrary prior contents of the 200-byte output buffer. Accepted; consumed = offset just past the closing brace; id, pubkey, sig (every byte), kind, created_at, content and the three tags equal the parts the text denotes
+//@ outside: the text itself is constant (see the header of this file); other member orders / whitespace placements / unknown-member shapes
+ev_text!(c01_text_order_m2, M2, M2.len());
 
-//@ harness: c01_int_created_at_20
+//@ harness: c01_text_order_m3
+//@ tier: seeded
+//@ group: member_order
+//@ timeout: 900
+//@ mem: 12
+//@ unwindset: read_sig=66; read_id=34; read_pubkey=34; read_hex=66; memcmp.0=34; memchr=12; read_u64=24; read_kind=10; burn_string=30; eat_whitespace=6; burn_number=12; json_unescape=64; check_event=4
+//@ encodes: Event::from_json, parse_json_event, read_id, read_pubkey, read_sig, read_kind, read_u64, read_tags_array, count_tags, read_tag, read_content, json_unescape, burn_key_and_value_after_quote, burn_value
+//@ bounds: compact text, member order sig,id,tags,pubkey,kind,created_at,content (each member is last in one of the seven orders; content before and after tags); arbitrary prior contents of the 200-byte output buffer. Accepted; consumed = offset just past the closing brace; id, pubkey, sig (every byte), kind, created_at, content and the three tags equal the parts the text denotes
+//@ outside: the text itself is constant (see the header of this file); other member orders / whitespace placements / unknown-member shapes
+ev_text!(c01_text_order_m3, M3, M3.len());
+
+//@ harness: c01_text_order_m4
 //@ tier: quick
-//@ timeout: 1800
-//@ mem: 14
-//@ unwindset: read_sig=66; read_id=34; read_pubkey=34; read_hex=66; memcmp.0=34
-//@ encodes: read_u64, Event::from_json
-//@ bounds: created_at written with 20 arbitrary digits (no leading zero): accepted iff the value < 2^64, then created_at() is that value - never wrapped, never a panic; plus the other symbolic value bytes
-ev_layout!(c01_int_created_at_20, N20, N20_ID, N20_PK, N20_SIG, N20_KIND, 5, N20_AT, 20, N20_CONTENT, N20_TAGV, N20.len());
+//@ timeout: 900
+//@ mem: 12
+//@ unwindset: read_sig=66; read_id=34; read_pubkey=34; read_hex=66; memcmp.0=34; memchr=12; read_u64=24; read_kind=10; burn_string=30; eat_whitespace=6; burn_number=12; json_unescape=64; check_event=4
+//@ encodes: Event::from_json, parse_json_event, read_id, read_pubkey, read_sig, read_kind, read_u64, read_tags_array, count_tags, read_tag, read_content, json_unescape, burn_key_and_value_after_quote, burn_value
+//@ bounds: compact text, member order content,id,pubkey,sig,kind,tags,created_at (each member is last in one of the seven orders; content before and after tags); arbitrary prior contents of the 200-byte output buffer. Accepted; consumed = offset just past the closing brace; id, pubkey, sig (every byte), kind, created_at, content and the three tags equal the parts the text denotes
+//@ outside: the text itself is constant (see the header of this file); other member orders / whitespace placements / unknown-member shapes
+ev_text!(c01_text_order_m4, M4, M4.len());
 
-//@ harness: c01_int_created_at_19
-//@ tier: thorough
-//@ timeout: 1800
-//@ mem: 14
-//@ unwindset: read_sig=66; read_id=34; read_pubkey=34; read_hex=66; memcmp.0=34
-//@ encodes: read_u64, Event::from_json
-//@ bounds: created_at written with 19 arbitrary digits: always accepted with the exact value
-ev_layout!(c01_int_created_at_19, N19, N19_ID, N19_PK, N19_SIG, N19_KIND, 5, N19_AT, 19, N19_CONTENT, N19_TAGV, N19.len());
+//@ harness: c01_text_order_m5
+//@ tier: seeded
+//@ group: member_order
+//@ timeout: 900
+//@ mem: 12
+//@ unwindset: read_sig=66; read_id=34; read_pubkey=34; read_hex=66; memcmp.0=34; memchr=12; read_u64=24; read_kind=10; burn_string=30; eat_whitespace=6; burn_number=12; json_unescape=64; check_event=4
+//@ encodes: Event::from_json, parse_json_event, read_id, read_pubkey, read_sig, read_kind, read_u64, read_tags_array, count_tags, read_tag, read_content, json_unescape, burn_key_and_value_after_quote, burn_value
+//@ bounds: compact text, member order tags,created_at,id,content,sig,pubkey,kind (each member is last in one of the seven orders; content before and after tags); arbitrary prior contents of the 200-byte output buffer. Accepted; consumed = offset just past the closing brace; id, pubkey, sig (every byte), kind, created_at, content and the three tags equal the parts the text denotes
+//@ outside: the text itself is constant (see the header of this file); other member orders / whitespace placements / unknown-member shapes
+ev_text!(c01_text_order_m5, M5, M5.len());
 
-//@ harness: c01_int_kind_6
+//@ harness: c01_text_order_m6
+//@ tier: seeded
+//@ group: member_order
+//@ timeout: 900
+//@ mem: 12
+//@ unwindset: read_sig=66; read_id=34; read_pubkey=34; read_hex=66; memcmp.0=34; memchr=12; read_u64=24; read_kind=10; burn_string=30; eat_whitespace=6; burn_number=12; json_unescape=64; check_event=4
+//@ encodes: Event::from_json, parse_json_event, read_id, read_pubkey, read_sig, read_kind, read_u64, read_tags_array, count_tags, read_tag, read_content, json_unescape, burn_key_and_value_after_quote, burn_value
+//@ bounds: compact text, member order pubkey,kind,id,content,created_at,sig,tags (each member is last in one of the seven orders; content before and after tags); arbitrary prior contents of the 200-byte output buffer. Accepted; consumed = offset just past the closing brace; id, pubkey, sig (every byte), kind, created_at, content and the three tags equal the parts the text denotes
+//@ outside: the text itself is constant (see the header of this file); other member orders / whitespace placements / unknown-member shapes
+ev_text!(c01_text_order_m6, M6, M6.len());
+
+//@ harness: c01_text_order_m7
+//@ tier: seeded
+//@ group: member_order
+//@ timeout: 900
+//@ mem: 12
+//@ unwindset: read_sig=66; read_id=34; read_pubkey=34; read_hex=66; memcmp.0=34; memchr=12; read_u64=24; read_kind=10; burn_string=30; eat_whitespace=6; burn_number=12; json_unescape=64; check_event=4
+//@ encodes: Event::from_json, parse_json_event, read_id, read_pubkey, read_sig, read_kind, read_u64, read_tags_array, count_tags, read_tag, read_content, json_unescape, burn_key_and_value_after_quote, burn_value
+//@ bounds: compact text, member order created_at,sig,kind,id,tags,content,pubkey (each member is last in one of the seven orders; content before and after tags); arbitrary prior contents of the 200-byte output buffer. Accepted; consumed = offset just past the closing brace; id, pubkey, sig (every byte), kind, created_at, content and the three tags equal the parts the text denotes
+//@ outside: the text itself is constant (see the header of this file); other member orders / whitespace placements / unknown-member shapes
+ev_text!(c01_text_order_m7, M7, M7.len());
+
+fn digits_value(d: &[u8], n: usize) -> u128 {
+    let mut v: u128 = 0;
+    let mut i = 0;
+    while i < n {
+        v = v * 10 + (d[i] - b'0') as u128;
+        i += 1;
+    }
+    v
+}
+
+//@ harness: c01_kernel_read_u64
 //@ tier: quick
-//@ timeout: 1800
-//@ mem: 14
-//@ unwindset: read_sig=66; read_id=34; read_pubkey=34; read_hex=66; memcmp.0=34
-//@ covers: none
-//@ encodes: read_kind, Event::from_json
-//@ bounds: kind written with 6 arbitrary digits (no leading zero, so >= 100000): always rejected, never wrapped into a u16, never a panic
-ev_layout!(c01_int_kind_6, K6, K6_ID, K6_PK, K6_SIG, K6_KIND, 6, K6_AT, 10, K6_CONTENT, K6_TAGV, K6.len());
-
-//@ harness: c01_string_escapes
-//@ tier: quick
-//@ timeout: 1800
-//@ mem: 14
-//@ unwindset: read_sig=66; read_id=34; read_pubkey=34; read_hex=66; memcmp.0=34; json_unescape=64
-//@ encodes: json_unescape, next_code_point, encode_utf8, read_content
-//@ bounds: content written as \n \" \\ \/ \b \f \r \t é € \u000a followed by literal 2-, 3- and 4-byte characters and `/x`; symbolic: the case of the three hex letters in é and €, and the final literal byte. content() equals the 25 bytes an independent parser extracts (computed at generation time)
-//@ outside: surrogate \u escapes (excluded by the property); other strings
+//@ timeout: 900
+//@ mem: 12
+//@ unwindset: read_u64=24; digits_value=24; c01_kernel=24; memchr=12
+//@ encodes: json_parse::read_u64 (created_at; also since/until/limit of filters)
+//@ bounds: every digit string of length 0..=21 (symbolic length, arbitrary digits, leading zeros allowed) followed by an arbitrary non-digit byte: Ok(v) iff there is at least one digit and the value < 2^64, then v is the exact value and the position is just past the digits; otherwise an error - never a wrapped value, never a panic
 #[kani::proof]
-#[kani::unwind(32)]
+#[kani::unwind(8)]
 #[kani::stub(core::panic::Location::caller, stub_caller)]
-fn c01_string_escapes() {
-    const N: usize = LS.len();
-    let mut t = *LS;
-    // é is at LS_CONTENT+16 (after \n\"\\\/\b\f\r\t = 16 bytes): digits at +18..+22; € follows
-    let e1 = LS_CONTENT + 16 + 2 + 2; // the 'e' of 00e9
-    let a1 = LS_CONTENT + 22 + 2 + 2; // the 'A' of 20AC
-    let c1 = a1 + 1; // the 'C'
-    assert!(t[e1] == b'e' && t[a1] == b'A' && t[c1] == b'C');
-    let up: [bool; 3] = kani::any();
-    t[e1] = if up[0] { b'E' } else { b'e' };
-    t[a1] = if up[1] { b'A' } else { b'a' };
-    t[c1] = if up[2] { b'C' } else { b'c' };
-    let v = any_plain();
-    let last = LS_CONTENT + 22 + 6 + 6 + 2 + 3 + 4 + 1; // the 'x'
-    assert!(t[last] == b'x');
-    t[last] = v;
+fn c01_kernel_read_u64() {
+    let mut t: [u8; 22] = kani::any();
+    let n: usize = kani::any();
+    kani::assume(n <= 21);
+    let mut i = 0;
+    while i < n {
+        kani::assume(t[i] >= b'0' && t[i] <= b'9');
+        i += 1;
+    }
+    kani::assume(!(t[n] >= b'0' && t[n] <= b'9'));
+    let v = digits_value(&t, n);
+    let mut pos = 0;
+    match read_u64(&t[..n + 1], &mut pos) {
+        Ok(got) => {
+            kani::cover!(n == 20);
+            assert!(n >= 1 && v <= u64::MAX as u128);
+            assert!(got as u128 == v && pos == n);
+        }
+        Err(e) => {
+            kani::cover!(n == 20);
+            assert!(n == 0 || v > u64::MAX as u128);
+            core::mem::forget(e);
+        }
+    }
+}
+
+//@ harness: c01_kernel_read_kind
+//@ tier: quick
+//@ timeout: 900
+//@ mem: 12
+//@ unwindset: read_kind=12; digits_value=12; c01_kernel=12; memchr=12
+//@ encodes: json_parse::read_kind
+//@ bounds: every digit string of length 0..=11 (symbolic length, arbitrary digits) followed by an arbitrary non-digit byte: Ok(k) iff there is at least one digit and the value <= 65535, then k is the exact value; otherwise an error - never wrapped into a u16, never a panic (10 and 11 digits overflow a u32 accumulator)
+#[kani::proof]
+#[kani::unwind(8)]
+#[kani::stub(core::panic::Location::caller, stub_caller)]
+fn c01_kernel_read_kind() {
+    let mut t: [u8; 12] = kani::any();
+    let n: usize = kani::any();
+    kani::assume(n <= 11);
+    let mut i = 0;
+    while i < n {
+        kani::assume(t[i] >= b'0' && t[i] <= b'9');
+        i += 1;
+    }
+    kani::assume(!(t[n] >= b'0' && t[n] <= b'9'));
+    let v = digits_value(&t, n);
+    let mut pos = 0;
+    match read_kind(&t[..n + 1], &mut pos) {
+        Ok(got) => {
+            kani::cover!(v == 65535);
+            assert!(n >= 1 && v <= 65535);
+            assert!(got as u128 == v && pos == n);
+        }
+        Err(e) => {
+            kani::cover!(v == 65536);
+            assert!(n == 0 || v > 65535);
+            core::mem::forget(e);
+        }
+    }
+}
+
+//@ harness: c01_text_escapes
+//@ tier: quick
+//@ timeout: 900
+//@ mem: 12
+//@ unwindset: read_sig=66; read_id=34; read_pubkey=34; read_hex=66; memcmp.0=34; memchr=12; read_u64=24; read_kind=10; burn_string=30; eat_whitespace=6; burn_number=12; json_unescape=64; check_event=4
+//@ encodes: json_unescape, next_code_point, encode_utf8, read_content
+//@ bounds: content written as \n \" \\ \/ \b \f \r \t \u00e9 \u20AC \u000a followed by literal 2-, 3- and 4-byte characters and `/x` (a constant text, arbitrary prior buffer): content() equals the 25 bytes an independent parser extracts (computed at generation time). Arbitrary string bytes are decided on the unescaper itself (C03: c03_unescape_arb3, c03_unescape_uescape)
+//@ outside: surrogate \u escapes (excluded by the property)
+#[kani::proof]
+#[kani::unwind(8)]
+#[kani::stub(core::panic::Location::caller, stub_caller)]
+fn c01_text_escapes() {
     let mut out: [u8; 220] = kani::any();
-    let r = Event::from_json(&t, &mut out);
-    match r {
+    match Event::from_json(LS, &mut out) {
         Ok((consumed, ev)) => {
-            kani::cover!(up[0] && !up[1]);
-            assert!(consumed == N);
+            kani::cover!(true);
+            assert!(consumed == LS.len());
             let c = ev.content();
             assert!(c.len() == LS_EXPECT.len());
             let i: usize = kani::any();
             kani::assume(i < LS_EXPECT.len());
-            if i == LS_EXPECT.len() - 1 {
-                assert!(c[i] == v);
-            } else {
-                assert!(c[i] == LS_EXPECT[i]);
-            }
+            assert!(c[i] == LS_EXPECT[i]);
         }
         Err(err) => {
             core::mem::forget(err);
-            assert!(false, "valid event text rejected");
+            panic!("valid event text rejected");
         }
     }
 }
